@@ -131,7 +131,12 @@ def h_tasks(ctx, prog):
         elif k == 'sleep':
           d = ctx.int('d_%d_%d' % (ti, si), 1, 5000); reqs[(ti, si)] = ('sleep', clock.now, d); got = yield R.Sleep(d)
         elif k == 'select_t':
-          t = ctx.int('t_%d_%d' % (ti, si), 1, 5000); reqs[(ti, si)] = ('select', clock.now, t); got = yield R.Select(['fd%d' % ti], None, None, t)
+          t = ctx.int('t_%d_%d' % (ti, si), 1, 5000); reqs[(ti, si)] = ('select', clock.now, t)
+          # the ways a caller may spell the same wait: descriptors as a list or as another collection, the timeout positional or by keyword
+          form = int(ctx.int('selform_%d_%d' % (ti, si), 0, 2)) if (ti == 0 and 'select_t' not in kinds[:si]) else 0      # (first timed wait of task 0; the others use the list form)
+          if form == 0: got = yield R.Select(['fd%d' % ti], None, None, t)
+          elif form == 1: got = yield R.Select(('fd%d' % ti,), None, None, t)
+          else: got = yield R.Select(('fd%d' % ti,), None, None, timeout=t)
         elif k == 'select_none': reqs[(ti, si)] = ('select', clock.now, None); got = yield R.Select(['fd%d' % ti], None, None)
         elif k == 'busy':
           # a long time slice: the clock moves on while this task runs (other tasks' deadlines may pass before the hub is consulted)
